@@ -17,7 +17,7 @@ PROP = {
         {"tag": "c09-miri", "bin": "c09", "args": ["--miri"], "tiers": ["thorough"], "expect_cases": False, "timeout": 1500},
     ],
     "mismatch_is_failing": True,
-    "rule": "exhaustive: append, prepend, pop_back, pop_front, owned/&/&mut split at every K <= N, concat of every (N, M) with N + M <= 8, remove/swap_remove at every index 0..=N+1 and usize::MAX, usize::MAX-1, 2^63, 2^32+1, the unchecked forms at every index < N, for every N in 0..=8; the same at the boundary lengths 15,16,17,31,32,33,63,64,65,255,256,1023,1024 (indices 0, 1, N/2, N-2, N-1, N, N+1, usize::MAX; 16 boundary (N, K) and 13 boundary (N, M) pairs); element types Tz (size 0, tracked), u8, u64, [u64;3], Tr (tracked); once with fixed identities and then with seeded ones (permuted identities, random bytes with duplicates; thorough: 12 rounds), and the fixed pass again under AddressSanitizer; thorough also runs an optimised (release) build and the N <= 4 part under Miri. distinct = distinct CASE lines; non-trivial = the array is non-empty (third integer > 0)",
+    "rule": "exhaustive: append, prepend, pop_back, pop_front, owned/&/&mut split at every K <= N, concat of every (N, M) with N + M <= 8, remove/swap_remove at every index 0..=N+1 and usize::MAX, usize::MAX-1, 2^63, 2^32+1, the unchecked forms at every index < N, for every N in 0..=8; the same at the boundary lengths 15,16,17,31,32,33,63,64,65,255,256,1023,1024 (indices 0, 1, N/2, N-2, N-1, N, N+1, usize::MAX; 16 boundary (N, K) and 15 boundary (N, M) pairs, incl. (2048, 1) and (1, 2048): more than 16 KiB of drop-tracked elements); element types Tz (size 0, tracked), u8, u64, [u64;3], Tr (tracked); once with fixed identities and then with seeded ones (permuted identities, random bytes with duplicates; thorough: 12 rounds), and the fixed pass again under AddressSanitizer; thorough also runs an optimised (release) build and the N <= 4 part under Miri. distinct = distinct CASE lines; non-trivial = the array is non-empty (third integer > 0)",
     "nontrivial": lambda case, obs: case.split()[2] != "0",
     "manifest": {
         "design_ref": "DESIGN.md section 7, C09",
